@@ -51,16 +51,22 @@ structure Cfg where
   resetAlways : Bool   -- `if resetState && vm.startCount > 1 { vm.resetForNewCode() }` and nothing else decides
   resetSp : Int        -- resetForNewCode: `vm.sp = …`
   runDrops : Bool      -- the Run path: `for vm.sp >= 0 { vm.pop() }` before activateCode
+  callCleans : Bool    -- callFunction's deferred function pops down to baseSP on EVERY exit (not only when resultErr is set)
   deriving Repr, DecidableEq, Inhabited
 
 /-- vm/vm.go as it is (tied: Ties.implCfg_tie) -/
-def implCfg : Cfg := ⟨true, -1, true⟩
+def implCfg : Cfg := ⟨true, -1, true, true⟩
 
 /-- the forbidden variant: the reset is skipped when the code object is loaded already -/
-def skipResetCfg : Cfg := ⟨false, -1, true⟩
+def skipResetCfg : Cfg := ⟨false, -1, true, true⟩
 
 /-- the variant before the repair of Run: the previous result stays under the next one -/
-def keepResultCfg : Cfg := ⟨true, -1, false⟩
+def keepResultCfg : Cfg := ⟨true, -1, false, true⟩
+
+/-- HISTORICAL: callFunction before the repair of C04-call-panic-leaks-slot — its deferred function
+    popped down to baseSP only `if resultErr != nil`; while a Go panic unwinds, resultErr is nil,
+    so resumeFrame took the topmost abandoned operand for the frame's result and pushed it back -/
+def preFixCallCfg : Cfg := ⟨true, -1, true, false⟩
 
 def insertCode (c : Nat) (l : List Nat) : List Nat := if l.contains c then l else c :: l
 
@@ -72,10 +78,12 @@ def insertCode (c : Nat) (l : List Nat) : List Nat := if l.contains c then l els
   * Run: start; no reset; drop everything; activateCode(0, vm.ip, ..); eval of what the main
     code has beyond vm.ip (nothing when not fresh).
   * Call: start; callFunction saves sp, runs the function in frame fp+1, pops the result and
-    hands it to the host; its deferred function calls resumeFrame(baseFP, baseIP, baseSP) and, when
-    resultErr is set, pops down to baseSP.  When a PANIC unwinds callFunction, resultErr is
-    still nil: resumeFrame takes the topmost abandoned operand for the frame's result and
-    pushes it back above baseSP — one slot stays (finding C04-call-panic-leaks-slot). -/
+    hands it to the host; its deferred function calls resumeFrame(baseFP, baseIP, baseSP) and pops
+    down to baseSP on every exit — completed, failed, or unwound by a Go panic (cfg.callCleans).
+    Before the repair (preFixCallCfg) the pop loop ran only when resultErr was set: while a PANIC
+    unwinds callFunction resultErr is still nil, resumeFrame took the topmost abandoned operand
+    for the frame's result and pushed it back above baseSP — one slot stayed
+    (fixed finding C04-call-panic-leaks-slot). -/
 def step (cfg : Cfg) (st : St) : Inv → St
   | .runCode c o =>
     let starts := st.starts + 1
@@ -88,7 +96,7 @@ def step (cfg : Cfg) (st : St) : Inv → St
     ⟨sp0 + (if fresh then (o.left : Int) else 0), 0, st.starts + 1, insertCode 0 st.loaded⟩
   | .call o =>
     let sp1 := match o with
-      | .panic (_ + 1) => st.sp + 1
+      | .panic (_ + 1) => if cfg.callCleans then st.sp else st.sp + 1
       | _ => st.sp
     ⟨sp1, st.fp, st.starts + 1, st.loaded⟩
 
@@ -113,7 +121,8 @@ def Inv.pending : Inv → Nat
   | .call (.err k) | .call (.panic k) => k
   | _ => 0
 
-/-- guard of finding C04-call-panic-leaks-slot: a Call whose function panics with operands pending -/
+/-- HISTORICAL guard of the fixed finding C04-call-panic-leaks-slot: a Call whose function panics
+    with operands pending (the oracle still reports it per invocation; nothing is excused by it) -/
 def Inv.callPanics : Inv → Bool
   | .call (.panic (_ + 1)) => true
   | _ => false
@@ -138,6 +147,9 @@ def reviewedEntryCalls : List (String × List String) := [
 
 def reviewedCallSaves : List String := ["baseSP := vm.sp"]
 def reviewedCallRestore : List String := [
+  "vm.resumeFrame(baseFP, baseIP, baseSP)", "for vm.sp > baseSP { vm.pop() }", "vm.callDepth--"]
+/-- HISTORICAL: the deferred function before the repair -/
+def preFixCallRestore : List String := [
   "vm.resumeFrame(baseFP, baseIP, baseSP)", "if resultErr != nil { for vm.sp > baseSP { vm.pop() } }", "vm.callDepth--"]
 def reviewedCallReturns : List String := ["return vm.pop(), nil"]
 def reviewedResumeFrame : List String := [
@@ -154,8 +166,9 @@ def parseInt (s : String) : Int := if s = "-1" then -1 else if s = "0" then 0 el
     every start after the first iff the only guard around resetForNewCode is
     `resetState && vm.startCount > 1` with the bare call as its body -/
 def cfgOfFacts (guards : List (String × List String)) (unguarded : Nat) (resetSp : String)
-    (loops : List (String × String × List String)) : Cfg :=
-  ⟨(guards == reviewedResetGuards && unguarded == 0), parseInt resetSp, loops.contains reviewedDropLoop⟩
+    (loops : List (String × String × List String)) (callRestore : List String) : Cfg :=
+  ⟨(guards == reviewedResetGuards && unguarded == 0), parseInt resetSp, loops.contains reviewedDropLoop,
+    callRestore == reviewedCallRestore⟩
 
 /-! ### line protocol -/
 
@@ -179,14 +192,15 @@ def cfgOfName : String → Option Cfg
   | "impl" => some implCfg
   | "skipreset" => some skipResetCfg
   | "keepresult" => some keepResultCfg
+  | "prefixcall" => some preFixCallCfg
   | _ => none
 
 def showSts (l : List St) : String :=
   let s := " ".intercalate (l.map fun st => toString st.sp ++ "/" ++ toString st.fp)
   if s == "" then "-" else s
 
-/-- `host <impl|skipreset|keepresult> <history>` →
-    `ok <sp/fp after every invocation: machine> <the same: Spec> <finding-guard per invocation: 0|1>` -/
+/-- `host <impl|skipreset|keepresult|prefixcall> <history>` →
+    `ok <sp/fp after every invocation: machine> <the same: Spec> <historical guard callPanics per invocation: 0|1>` -/
 def handleHost : List String → String
   | [cfg, hist] =>
     match cfgOfName cfg, parseHist hist with
